@@ -18,6 +18,7 @@ CHECKS = {
     "C02": ("c02", "model_checking"),
     "C07": ("c07", "model_checking"),
     "C08": ("c08", "model_checking"),
+    "C09": ("c09", "model_checking"),
     "C10": ("c10", "model_checking"),
     "C11": ("c11", "model_checking"),
     "C14": ("c14", "model_checking"),
